@@ -126,6 +126,15 @@ func (s *RegionStorage) SaveRegion(region *metapb.Region) error {
 	return nil
 }
 
+// DeleteRegion removes the region from the storage and from the batch of regions waiting to be flushed:
+// a region that is still pending there would be written back by the next flush.
+func (s *RegionStorage) DeleteRegion(region *metapb.Region) error {
+	s.mu.Lock()
+	defer s.mu.Unlock()
+	delete(s.batchRegions, regionPath(region.GetId()))
+	return deleteRegion(s.LeveldbKV, region)
+}
+
 func deleteRegion(kv kv.Base, region *metapb.Region) error {
 	return kv.Remove(regionPath(region.GetId()))
 }
